@@ -63,6 +63,8 @@ class LogixController:
         self.svc_log = []  # (service name, tag full name, details...) for every tag service executed
         self.clock_us = 1_500_000_000_000_000
         self.max_unconnected = 504
+        self.force_tfrag = 0  # >0: every template read returns at most this many bytes
+        self.force_page = 0  # >0: every symbol page holds at most this many entries
 
     def attach(self, target):
         self.target = target
@@ -237,7 +239,10 @@ class LogixController:
             fit += 1
         fit = max(fit, 1)
         # page break: default as many entries as fit, alternatives: fewer (at least one)
-        k = self.choose("page", f"page@{prog or ''}:{start}", fit, fit - 1) + 1
+        if self.force_page:
+            k = min(fit, self.force_page)
+        else:
+            k = self.choose("page", f"page@{prog or ''}:{start}", fit, fit - 1) + 1
         out = b"".join(entries[:k])
         return (PARTIAL if k < len(entries) else OK), out
 
@@ -282,8 +287,24 @@ class LogixController:
             want = min(cnt, budget)
             if want <= 0:
                 return b""
-            # fragment length: default everything that fits, alternatives: any shorter non-empty piece
-            k = self.choose("tfrag", f"tfrag@{td.tid:#x}:{off}", want, want - 1) + 1
+            # fragment length: default everything that fits; alternatives: a cut at every byte *class* of the
+            # definition (inside member info, on the info/name boundary, inside the template name, inside and
+            # between member names, one byte before the end, a single byte)
+            k = want
+            if self.force_tfrag:
+                k = min(want, self.force_tfrag)
+            else:
+                info_len = 8 * len(td.members)
+                name_end = info_len + len(td.name) + (1 if td.first_member_is_name else 3)
+                cuts = {1, 7, 8, 9, info_len - 1, info_len, info_len + 1, info_len + max(1, len(td.name) // 2), name_end - 1, name_end, name_end + 1, len(td.definition()) - 1, len(td.definition()), off + want - 1}
+                pos = name_end
+                for m in td.members[:3]:
+                    pos += len(m.name) + 1
+                    cuts |= {pos - 1, pos}
+                alts = sorted(c - off for c in cuts if 0 < c - off < want)
+                c = self.choose("tfrag", f"tfrag@{td.tid:#x}:{off}", len(alts) + 1, 0)
+                if c:
+                    k = alts[c - 1]
             chunk = blob[off : off + k]
             return (PARTIAL if k < cnt else OK), chunk
         raise CipError(E_SERVICE)
